@@ -240,9 +240,19 @@ Qed.
 Lemma CStep_retry reuse h s : CStep s (retry reuse h s).
 Proof. unfold retry. cbn. destruct (is_some (fexc s)); apply CStep_same; repeat split. Qed.
 
+Lemma CStep_start_chain s : CStep s (start_chain g s).
+Proof. unfold start_chain. destruct (ks_hosts (pools s)); [apply CStep_set_final_result|apply CStep_same; repeat split]. Qed.
+
+Lemma CStep_ks_report c h err s : CStep s (ks_report g c h err s).
+Proof.
+  unfold ks_report. destruct (nth_error (chains s) c) as [[hs e]|]; [|apply CStep_refl].
+  destruct (mem_z h hs); [|apply CStep_refl]. destruct (remove_z h hs); [|apply CStep_same; repeat split].
+  destruct (e || err); (eapply CStep_trans; [|first [apply CStep_set_final_exception|apply CStep_set_final_result]]; apply CStep_same; repeat split).
+Qed.
+
 Lemma CStep_set_result a h k s : CStep s (set_result g a h k s).
 Proof.
-  destruct k as [more| |d| |]; [| |destruct d| |]; cbn [set_result].
+  destruct k as [more| |d| | |]; [| |destruct d| | |]; cbn [set_result].
   - eapply CStep_trans; [|apply CStep_set_final_result]. apply CStep_same; repeat split.
   - apply CStep_set_final_result.
   - apply CStep_retry.
@@ -250,6 +260,7 @@ Proof.
   - apply CStep_set_final_exception.
   - apply CStep_set_final_result.
   - apply CStep_set_final_exception.
+  - apply CStep_start_chain.
   - destruct (CStep_set_final_exception g (10 + Z.of_nat a) (cancel_timer s)) as (F & P & _).
     apply CStep_final_intro.
     + eapply frameT_trans; [apply frameT_cancel|exact F].
@@ -331,12 +342,20 @@ Proof. destruct (fl_set_final_result g v s) as (h & _). exact h. Qed.
 Lemma att_set_final_exception g e s : attempts (set_final_exception g e s) = attempts s.
 Proof. destruct (fl_set_final_exception g e s) as (h & _). exact h. Qed.
 
+Lemma att_ks_report g c h err s : attempts (ks_report g c h err s) = attempts s.
+Proof.
+  unfold ks_report. destruct (nth_error (chains s) c) as [[hs e]|]; [|reflexivity].
+  destruct (mem_z h hs); [|reflexivity]. destruct (remove_z h hs); [|reflexivity].
+  destruct (e || err); rewrite ?att_set_final_result, ?att_set_final_exception; reflexivity.
+Qed.
+
 Lemma att_set_result g a h k s : attempts (set_result g a h k s) = attempts s.
 Proof.
-  destruct k as [more| |d| |]; [| |destruct d| |]; cbn [set_result];
+  destruct k as [more| |d| | |]; [| |destruct d| | |]; cbn [set_result];
     rewrite ?att_set_final_result, ?att_set_final_exception; try reflexivity.
   - unfold retry. cbn. destruct (is_some (fexc s)); reflexivity.
   - unfold retry. cbn. destruct (is_some (fexc s)); reflexivity.
+  - unfold start_chain. destruct (ks_hosts (pools s)); [apply att_set_final_result|reflexivity].
   - destruct (fl_cancel s) as (h1 & _). exact h1.
 Qed.
 
@@ -527,7 +546,7 @@ Proof.
   intros H Hp.
   assert (HL : LInv (step true true s o)) by (destruct H as (_ & _ & _ & _ & HL & _); apply LInv_step, HL).
   assert (HS : SInv (step true true s o)) by (destruct H as (_ & _ & _ & _ & _ & HS); apply SInv_step, HS).
-  destruct o as [|ps|d|a k|k|k|pl| |]; cbn [step] in *.
+  destruct o as [|ps|d|a k|k|k|pl| | |c hh err]; cbn [step] in *.
   - (* Send *)
     eapply CInv_CStep; [exact H| |exact HL|exact HS|].
     + eapply CStep_trans; [|apply CStep_send_loop]. apply CStep_same; repeat split.
@@ -558,6 +577,7 @@ Proof.
   - eapply CInv_CStep; [exact H|apply CStep_same; repeat split|exact HL|exact HS|tauto].
   - destruct (result_call s); [|exact H].
     eapply CInv_CStep; [exact H|apply CStep_same; repeat split|exact HL|exact HS|tauto].
+  - eapply CInv_CStep; [exact H|apply CStep_ks_report|exact HL|exact HS|]. rewrite att_ks_report. tauto.
 Qed.
 
 (* __init__ followed at once by Session.execute_async's send_request() *)
@@ -568,7 +588,7 @@ Proof.
   assert (HS : SInv (step true true (init c) Send)) by (apply SInv_step, SInv_init).
   cbn [step] in *. unfold init in *.
   set (s00 := mkState (c_plan c) [] None None None 0 [] None (c_specs c) None None false [] false
-                      (c_now c) (c_now c) (c_timeout c) (c_now c) [] (c_pools c) false false []) in *.
+                      (c_now c) (c_now c) (c_timeout c) (c_now c) [] (c_pools c) false false [] [] 0) in *.
   set (s0 := set_started true (start_timer s00)) in *.
   assert (C0 : CStep s00 (start_timer s00)).
   { apply CStep_start_timer. intros T0 HT0. cbn in HT0. rewrite Hc in HT0. inversion HT0. cbn. lia. }
@@ -592,6 +612,31 @@ Proof.
         unfold send_request in Hf. congruence.
       * exists 0%nat, tn. repeat split; try assumption. rewrite f3. cbn in Hd1. cbn. lia.
     + left. exists 0%nat, tn, 0%nat. repeat split; try assumption; [lia|]. rewrite f3. cbn in Hd1. cbn. lia.
+Qed.
+
+(* no speculative execution configured: the bound needs no assumption about when (or whether) send_request() happens *)
+Lemma start_timer_nospec s : cur_timer s = None -> timeout s = Some T -> specs s = [] ->
+  exists t, timers (start_timer s) = timers s ++ [t] /\ live t = true /\ tk t = TTimeout 0 /\ due t = start s + T.
+Proof.
+  intros Hc Ht Hs. unfold start_timer. rewrite Hc, Hs. cbn [tl]. unfold time_remaining. cbn [timeout set_specs]. rewrite Ht.
+  cbn [andb Z.leb Z.compare]. eexists. split; [reflexivity|]. split; [reflexivity|]. split; [reflexivity|]. cbn. lia.
+Qed.
+
+Lemma CInv_init_nospec c : c_timeout c = Some T -> c_specs c = [] -> CInv T (init c).
+Proof.
+  intros Hc Hsp.
+  assert (HL : LInv (init c)) by apply LInv_init.
+  assert (HS : SInv (init c)) by apply SInv_init.
+  unfold init in *.
+  set (s00 := mkState (c_plan c) [] None None None 0 [] None (c_specs c) None None false [] false
+                      (c_now c) (c_now c) (c_timeout c) (c_now c) [] (c_pools c) false false [] [] 0) in *.
+  assert (C0 : CStep s00 (start_timer s00)).
+  { apply CStep_start_timer. intros T0 HT0. cbn in HT0. rewrite Hc in HT0. inversion HT0. cbn. lia. }
+  destruct (start_timer_nospec s00 eq_refl Hc Hsp) as (tn & Htn & Hln & Hk1 & Hd1).
+  pose proof C0 as ((f1 & f2 & f3 & f4) & P & _).
+  unfold CInv. rewrite f1, f2, f3. split; [exact Hc|]. split; [reflexivity|]. split; [|split; [|split; assumption]].
+  - eapply P1_PStep; [|exact f4|exact P]. intros j t Hj. destruct j; discriminate.
+  - intros _. left. exists 0%nat, tn, 0%nat. rewrite Htn, f3. repeat split; try assumption; [lia|]. cbn in Hd1. cbn. lia.
 Qed.
 
 Lemma CInv_run : forall h s, CInv T s -> punctual true true s h -> CInv T (run true true s h).
